@@ -37,7 +37,7 @@ func TestMain(m *testing.M) {
 }
 
 func asLimitBytes() uint64 {
-	gb := uint64(6)
+	gb := uint64(3)
 	if v, err := strconv.ParseUint(os.Getenv("VERIF_C18_AS_GB"), 10, 64); err == nil && v > 0 {
 		gb = v
 	}
@@ -46,6 +46,7 @@ func asLimitBytes() uint64 {
 
 func workerMain() {
 	runtime.GOMAXPROCS(2)
+	runtime.MemProfileRate = 64 << 10 // so that an allocation of 1 MiB is (practically) always in the profile
 	hello := byte('R')
 	lim := asLimitBytes()
 	if err := syscall.Setrlimit(syscall.RLIMIT_AS, &syscall.Rlimit{Cur: lim, Max: lim}); err != nil {
@@ -64,6 +65,7 @@ func workerMain() {
 		if _, err := io.ReadFull(in, data); err != nil {
 			os.Exit(0)
 		}
+		tick()
 		o := checkOne(int(hdr[0]), data)
 		if o.Status < stPanic {
 			_, _ = os.Stdout.Write([]byte{byte(o.Status)})
@@ -74,6 +76,9 @@ func workerMain() {
 		msg[0] = byte(o.Status)
 		binary.LittleEndian.PutUint32(msg[1:], uint32(len(js)))
 		_, _ = os.Stdout.Write(append(msg, js...))
+		if o.Retire {
+			os.Exit(0)
+		}
 	}
 }
 
@@ -331,7 +336,11 @@ func (p *pool) alone(j job) (o outcome, died, timedOut bool, stderr, state strin
 	}
 	outs, to := w.run([]job{j})
 	if len(outs) == 1 {
-		p.put(w)
+		if outs[0].Retire {
+			w.kill()
+		} else {
+			p.put(w)
+		}
 		return outs[0], false, false, "", "", nil
 	}
 	if to {
@@ -360,6 +369,10 @@ func (p *pool) exec(jobs []job, handle func(job, outcome)) {
 			handle(jobs[i+k], o)
 		}
 		i += len(outs)
+		if n := len(outs); n > 0 && outs[n-1].Retire {
+			w.kill() // it announced its exit (it was holding a huge dead block)
+			continue
+		}
 		if i >= len(jobs) {
 			p.put(w)
 			return
